@@ -62,9 +62,10 @@ def worker_extra():
     return _G.get('extra')
 
 
-def worker_solver(timeout_ms=60000, which='z3'):
-    """fresh solver for a job (terms are reset per job, so definitions cannot be shared)"""
-    return smt.Solver(which, timeout_ms=timeout_ms)
+def worker_solver(timeout_ms=60000, which='z3', lut_mode='uf', logic='ALL'):
+    """fresh solver for a job (terms are reset per job, so definitions cannot be shared).
+    lut_mode/logic: 'uf'/'ALL' for deeply nested tables (Reed-Solomon), 'ite'/'QF_BV' for shallow arithmetic"""
+    return smt.Solver(which, timeout_ms=timeout_ms, lut_mode=lut_mode, logic=logic)
 
 
 def _run_job(arg):
@@ -372,7 +373,7 @@ def eval_search_cex(pending, assumptions, n, seed=0):
     return None
 
 
-def discharge(solver, items, assumptions=(), want_model=True, eval_search=16):
+def discharge(solver, items, assumptions=(), want_model=True, eval_search=16, chunk=100000):
     """items: list of (label, cond) where cond (width-1 int/term) must hold under the solver's
     permanent assumptions.  Syntactically true ones are counted, the rest are sent in one batch
     query (assert the disjunction of the negations); on sat each is queried separately.
@@ -396,6 +397,39 @@ def discharge(solver, items, assumptions=(), want_model=True, eval_search=16):
         if cex is not None:
             failures.append(cex)
             return syn, len(pending), failures, unknowns
+    for lo in range(0, len(pending), chunk):
+        part = pending[lo:lo + chunk]
+        neg = T.or_many([T.lnot(c) for _, c in part])
+        ans, model = solver.check(list(assumptions) + [neg], want_model=want_model)
+        if ans == 'unsat':
+            continue
+        if ans == 'sat':
+            # one model violates at least one obligation: find which by evaluating them under it
+            env = dict(model or {})
+            for name in T.all_vars():
+                env.setdefault(name, 0)
+            hit = False
+            cache = {}
+            for label, cond in part:
+                if T.evaluate(cond, env, cache) == 0:
+                    failures.append((label, model))
+                    hit = True
+                    break
+            if not hit:
+                unknowns.append('model does not falsify any obligation of the batch')
+            break
+        if len(part) <= 4 and not solver.dead:
+            for label, cond in part:
+                a, model = solver.check(list(assumptions) + [T.lnot(cond)], want_model=want_model)
+                if a == 'sat':
+                    failures.append((label, model))
+                elif a == 'unknown':
+                    unknowns.append(label)
+        else:
+            unknowns.extend(label for label, _ in part[:3])
+        if failures or unknowns:
+            break
+    return syn, len(pending), failures, unknowns
     if pending:
         neg = T.or_many([T.lnot(c) for _, c in pending])
         ans, model = solver.check(list(assumptions) + [neg], want_model=want_model)
